@@ -370,6 +370,9 @@ func genScene(r *hx.Rng, big bool) sceneDesc {
 		}
 		d.Models = append(d.Models, mo)
 	}
+	if r.Chance(2, 3) {
+		alias(r, &d)
+	}
 	for i, n := 0, r.Intn(6)-3; i < n; i++ {
 		l := lightDesc{Type: hx.Pick(r, []string{"", "point", "spot", "directional"}), Color: genColor(r), Pos: *vec3()}
 		if r.Chance(1, 2) {
@@ -399,14 +402,168 @@ func fixDesc(d *sceneDesc) {
 			clamp(p, len(d.Textures))
 		}
 	}
+	okRef := func(r *sliceRef, n func(int) int, pools int) bool {
+		return r != nil && r.Pool >= 0 && r.Pool < pools && r.Off >= 0 && r.Len >= 0 && r.Off+r.Len <= n(r.Pool)
+	}
+	for i := range d.Meshes {
+		m := &d.Meshes[i]
+		for j := range m.Attrs {
+			if a := &m.Attrs[j]; a.Ref != nil && !okRef(a.Ref, func(p int) int { return d.AttrPool[p].count() }, len(d.AttrPool)) {
+				a.Ref = nil
+			}
+		}
+		if m.IdxRef != nil && !okRef(m.IdxRef, func(p int) int { return len(d.IdxPool[p]) }, len(d.IdxPool)) {
+			m.IdxRef = nil
+		}
+	}
 	var ms []modelDesc
 	for _, mo := range d.Models {
+		if mo.SameAs != nil && (*mo.SameAs < 0 || *mo.SameAs >= len(ms)) {
+			mo.SameAs = nil
+		}
+		if mo.InstRef != nil && !okRef(mo.InstRef, func(p int) int { return len(d.InstPool[p]) }, len(d.InstPool)) {
+			mo.InstRef = nil
+		}
 		if mo.Mesh >= 0 && mo.Mesh < len(d.Meshes) {
 			clamp(&mo.Material, len(d.Materials))
 			ms = append(ms, mo)
 		}
 	}
 	d.Models = ms
+}
+
+// ---------------------------------------------------------------- aliasing between slice-typed inputs
+func genInst(r *hx.Rng) instDesc {
+	v := func() [3]fl { return [3]fl{genComp(r, 0), genComp(r, 2), genComp(r, 0)} }
+	return instDesc{T: v(), S: v(), R: [4]fl{genComp(r, 2), genComp(r, 2), genComp(r, 1), genComp(r, 0)}}
+}
+
+// pickRef chooses a view of a backing array of length n: prefix, suffix, inner window or the whole array
+func pickRef(r *hx.Rng, pool, n, minLen int) *sliceRef {
+	if n < minLen || n == 0 {
+		return nil
+	}
+	l := minLen + r.Intn(n-minLen+1)
+	if l == 0 {
+		l = 1
+	}
+	switch r.Intn(4) {
+	case 0:
+		return &sliceRef{Pool: pool, Off: 0, Len: l} // prefix
+	case 1:
+		return &sliceRef{Pool: pool, Off: n - l, Len: l} // suffix
+	case 2:
+		return &sliceRef{Pool: pool, Off: 0, Len: n} // whole
+	}
+	return &sliceRef{Pool: pool, Off: r.Intn(n - l + 1), Len: l}
+}
+
+// alias rewrites some slice-typed inputs of a generated scene into views of shared backing arrays
+func alias(r *hx.Rng, d *sceneDesc) {
+	// GPU instances: one or two placement arrays; models take prefixes / suffixes / windows / the same view, or an
+	// equal-by-value private copy
+	if r.Chance(2, 3) {
+		for p, np := 0, r.Range(1, 2); p < np; p++ {
+			var arr []instDesc
+			for i, n := 0, r.Range(2, 6); i < n; i++ {
+				arr = append(arr, genInst(r))
+			}
+			d.InstPool = append(d.InstPool, arr)
+		}
+		var last *sliceRef
+		for i := range d.Models {
+			mo := &d.Models[i]
+			if mo.SameAs != nil || !r.Chance(1, 2) {
+				continue
+			}
+			p := r.Intn(len(d.InstPool))
+			ref := pickRef(r, p, len(d.InstPool[p]), 1)
+			if last != nil && r.Chance(1, 4) {
+				c := *last
+				ref = &c // identical view
+			}
+			if last != nil && r.Chance(1, 4) {
+				ref = &sliceRef{Pool: last.Pool, Off: last.Off, Len: 1 + r.Intn(len(d.InstPool[last.Pool])-last.Off)} // same start, other length
+			}
+			if r.Chance(1, 5) {
+				mo.Inst = append([]instDesc{}, d.InstPool[ref.Pool][ref.Off:ref.Off+ref.Len]...) // equal by value, own array
+				mo.InstRef = nil
+			} else {
+				mo.Inst, mo.InstRef = nil, ref
+			}
+			last = ref
+		}
+	}
+	// attribute data: float attributes of small meshes become views of one array per arity
+	if r.Chance(1, 2) {
+		pools := map[int]int{}
+		for _, k := range []int{3, 2, 4} {
+			if r.Chance(2, 3) {
+				pools[k] = len(d.AttrPool)
+				d.AttrPool = append(d.AttrPool, genAttr(r, "pool", k, r.Range(6, 14), false))
+			}
+		}
+		for i := range d.Meshes {
+			m := &d.Meshes[i]
+			if len(m.Attrs) == 0 {
+				continue
+			}
+			nv := m.Attrs[0].count()
+			off := -1
+			for j := range m.Attrs {
+				a := &m.Attrs[j]
+				p, ok := pools[a.K]
+				if !ok || a.Name == "Joint" || nv == 0 || nv > d.AttrPool[p].count() || r.Chance(1, 3) {
+					continue
+				}
+				if off < 0 || r.Chance(1, 2) {
+					off = r.Intn(d.AttrPool[p].count() - nv + 1)
+					if r.Chance(1, 2) {
+						off = 0
+					}
+				}
+				if off+nv > d.AttrPool[p].count() {
+					off = 0
+				}
+				a.Ref, a.Runs = &sliceRef{Pool: p, Off: off, Len: nv}, nil
+			}
+		}
+	}
+	// indices: meshes with at least 3 vertices index through views of one array of small indices
+	if r.Chance(1, 2) {
+		var arr []int
+		for i, n := 0, 3*r.Range(2, 5); i < n; i++ {
+			arr = append(arr, r.Intn(3))
+		}
+		d.IdxPool = append(d.IdxPool, arr)
+		for i := range d.Meshes {
+			m := &d.Meshes[i]
+			if len(m.Attrs) == 0 || len(m.Idx) == 0 || r.Chance(1, 2) {
+				continue
+			}
+			nv := m.Attrs[0].count()
+			if m.Attrs[0].Ref != nil {
+				nv = m.Attrs[0].Ref.Len
+			}
+			if nv < 3 {
+				continue
+			}
+			l := 3 * r.Range(1, len(arr)/3)
+			off := 0
+			if r.Chance(1, 2) {
+				off = r.Intn(len(arr) - l + 1)
+			}
+			m.IdxRef, m.Idx = &sliceRef{Pool: 0, Off: off, Len: l}, nil
+		}
+	}
+	// the same PolyformModel value twice in the model list
+	if len(d.Models) > 1 && r.Chance(1, 4) {
+		i := r.Range(1, len(d.Models)-1)
+		j := r.Intn(i)
+		if d.Models[j].SameAs == nil {
+			d.Models[i] = modelDesc{SameAs: &j, Mesh: d.Models[j].Mesh, Material: d.Models[j].Material}
+		}
+	}
 }
 
 // ---------------------------------------------------------------- fixed scenes
@@ -488,5 +645,26 @@ func fixedScenes() []sceneDesc {
 		Samplers:  []samplerDesc{{Name: "s", Mag: 9729, Min: 9987, WrapS: 10497, WrapT: 10497}},
 		Textures:  []texDesc{{URI: "a.png", Sampler: 0, Transform: 2}, {URI: "a.png", Sampler: 0}},
 		Materials: []matDesc{ta, tb}, Models: []modelDesc{m(0, 0), m(0, 1)}})
+	// 16: LOD set-up: one placement array, the detailed mesh uses placements[:2], the coarse mesh all five, a third
+	// model the last three (views of one backing array that start at the same / at another element)
+	var place []instDesc
+	for i := 0; i < 5; i++ {
+		place = append(place, instDesc{T: [3]fl{fl(i), fl(2 * i), 0.5}, R: [4]fl{0, 0, 0, 1}, S: [3]fl{1, fl(i + 1), 1}})
+	}
+	lod := func(mesh, off, n int) modelDesc {
+		return modelDesc{Name: "lod", Mesh: mesh, Material: -1, InstRef: &sliceRef{Pool: 0, Off: off, Len: n}}
+	}
+	out = append(out, sceneDesc{Meshes: []meshDesc{quad, tri}, InstPool: [][]instDesc{place},
+		Models: []modelDesc{lod(0, 0, 2), lod(1, 0, 5), lod(1, 2, 3), lod(0, 0, 2)}})
+	// 17: two meshes whose Position data are a prefix and a window of one array, sharing one index array; the same
+	// model value listed twice
+	zero := 0
+	pool := posAttr([3]float64{0, 0, 0}, [3]float64{1, 0, 0}, [3]float64{0, 1, 0}, [3]float64{1, 1, 0}, [3]float64{2, 2, -1}, [3]float64{-3, 0.1, 7})
+	out = append(out, sceneDesc{AttrPool: []attrDesc{pool}, IdxPool: [][]int{{0, 1, 2, 2, 1, 0}},
+		Meshes: []meshDesc{
+			{Attrs: []attrDesc{{Name: "Position", K: 3, Ref: &sliceRef{Pool: 0, Off: 0, Len: 3}}}, IdxRef: &sliceRef{Pool: 0, Off: 0, Len: 3}},
+			{Attrs: []attrDesc{{Name: "Position", K: 3, Ref: &sliceRef{Pool: 0, Off: 2, Len: 4}}}, IdxRef: &sliceRef{Pool: 0, Off: 0, Len: 6}},
+			{Attrs: []attrDesc{{Name: "Position", K: 3, Ref: &sliceRef{Pool: 0, Off: 0, Len: 3}}}, IdxRef: &sliceRef{Pool: 0, Off: 3, Len: 3}}},
+		Models: []modelDesc{m(0, -1), m(1, -1), {SameAs: &zero}, m(2, -1)}})
 	return out
 }
